@@ -625,6 +625,20 @@ func Run(r *fw.Run) {
 	}
 	// the go version boundary of the exclude order: single-line layouts under every kind of go line
 	sds = append(sds, seeds(1, []string{"1.3", "1.9", "1.20.14", "1.21rc1", "1.21beta1", "1.21.0", "1.22rc1", "1.22.3", "1.100"}, false, true)...)
+	// character sweep over the text of end-of-line comments: every printable ASCII character (and a few
+	// others) as the first character of a plain comment and of the text after the indirect marker
+	{
+		var firsts []string
+		for c := 0x21; c < 0x7f; c++ {
+			firsts = append(firsts, string(rune(c)))
+		}
+		firsts = append(firsts, "é", "\u212a", "%s", "%d", "//", "indirect", "i", "; ")
+		for _, f := range firsts {
+			for _, com := range []string{"// indirect; " + f + "yz q", "// " + f + "yz q", "// indirect;" + f, "//" + f} {
+				sds = append(sds, "module example.com/m\n\ngo 1.21\n\nrequire a.com/x v1.0.0 "+com+"\n")
+			}
+		}
+	}
 	reqs := requests()
 	r.Bounds["require_lines_max"] = kmax
 	r.Bounds["seeds"] = len(sds)
